@@ -391,13 +391,13 @@ GcDeleteBand ==
     /\ gc.pc = "DeleteBands"
     /\ IF gc.todel = {}
        THEN /\ gc' = IF GcBandsBeforeBlocks THEN [gc EXCEPT !.pc = "DeleteBlocks"] ELSE [gc EXCEPT !.pc = "Release", !.res = "ok"]
-            /\ UNCHANGED <<fs, snap, partial>>
-       ELSE LET b == SetMin(gc.todel) IN       \* in the order given (one remove_dir_all each)
+            /\ UNCHANGED <<fs, snap, partial, cnt>>
+       ELSE \E b \in gc.todel :                \* in the order of the request, which is any order (one remove_dir_all each)
             /\ fs' = RemoveDirAllAt(fs, Key("BandDir", b, -1, ""))
             /\ gc' = [gc EXCEPT !.todel = @ \ {b}]
             /\ snap' = [x \in (DOMAIN snap) \ {b} |-> snap[x]]
             /\ partial' = partial \ {b}
-    /\ cnt' = IF gc.todel = {} THEN cnt ELSE [cnt EXCEPT !.torn = @ \ {SetMin(gc.todel)}]
+            /\ cnt' = [cnt EXCEPT !.torn = @ \ {b}]
     /\ UNCHANGED <<src, bk>>
 
 GcDeleteBlock ==
@@ -434,8 +434,8 @@ GcCrash ==
 GcCrashTorn ==
     /\ AllowCrash /\ AllowTornRmdir
     /\ gc.pc = "DeleteBands" /\ gc.todel # {}
-    /\ LET b == SetMin(gc.todel)
-           bd == fs.bands[b]
+    /\ \E b \in gc.todel :
+       LET bd == fs.bands[b]
        IN
        /\ \E kh \in BOOLEAN, kt \in BOOLEAN, K \in SUBSET (DOMAIN bd.hunks) :
              /\ ~(kh /\ kt /\ K = DOMAIN bd.hunks)        \* (nothing removed yet: that is GcCrash)
